@@ -53,6 +53,8 @@ def textual_expand(files, path, depth=0):
         parts = line.split(";")[0].split()
         if len(parts) == 2 and parts[0].upper() == "INCLUDE" and line[:1] in " \t":
             out.extend(textual_expand(files, parts[1], depth + 1))
+        elif len(parts) == 3 and parts[1].upper() == "INCLUDE" and line[:1] not in " \t":
+            out.extend(textual_expand(files, parts[2], depth + 1))     # a label on the INCLUDE line is replaced with the line
         else:
             out.append(line)
     return out
@@ -101,7 +103,21 @@ class C19(object):
             a = rng.randint(0, len(lines) - 1)
             b = rng.randint(a + 1, len(lines))
             cuts.append({"a": a, "b": b, "path": paths[j]})
-        fault = rng.weighted([(None, 70), ("missing", 10), ("self", 4), ("cycle2", 4), ("cycle3", 4), ("cycle_prefix", 4), ("sibling_names", 3), ("dot_self", 2)])
+        fault = rng.weighted([(None, 70), ("missing", 8), ("self", 3), ("cycle2", 3), ("cycle3", 3), ("cycle_prefix", 3), ("sibling_names", 3), ("dot_self", 2),
+                              ("is_directory", 2), ("through_file", 2), ("unreadable", 2)])
+        # included files that contribute no statement (empty, comment only), possibly next to another INCLUDE line or
+        # carrying a label; by textual inclusion they simply vanish
+        if rng.chance(0.25):
+            for _ in range(rng.randint(1, 3)):
+                nm = rng.choice(["empty.asm", "notes.asm"])
+                text = "%s INCLUDE %s\n" % (rng.choice(["", "", "", "INCLB"]), nm)
+                where = rng.choice([c["a"] for c in cuts] + [c["b"] for c in cuts] + [rng.randint(0, len(lines))])
+                lines.insert(where, text)
+                for c in cuts:
+                    if c["a"] >= where and not (c["a"] == where and rng.chance(0.5)):
+                        c["a"] += 1
+                    if c["b"] > where or (c["b"] == where and c["a"] < where and rng.chance(0.5)):
+                        c["b"] += 1
         # END is only a marker: statements after it (in the includer or in the same file) are still assembled
         if rng.chance(0.2) and len(lines) > 2:
             lines.insert(rng.randint(1, len(lines) - 1), " END \n")
@@ -117,6 +133,8 @@ class C19(object):
         fault = case.get("fault")
         included = sorted(p for p in files if p != "main.asm")
         fired = None
+        files.setdefault("empty.asm", "")
+        files.setdefault("notes.asm", "; nothing but a comment\n\n")
         if case.get("decoys"):
             # pre-existing file state: for an INCLUDE written inside a file that lives in a sub-directory, a different
             # file of the same name lies next to the including file.  Paths are relative to the working directory, so
@@ -129,7 +147,7 @@ class C19(object):
                     parts = line.split()
                     if len(parts) == 2 and parts[0] == "INCLUDE" and (d + "/" + parts[1]) not in files:
                         files[d + "/" + parts[1]] = " FCB $EE,$EE,$EE\nDECOY EQU $DEC0\n"
-                        self.last_decoys = getattr(self, "last_decoys", 0) + 1
+                        files["\0decoys"] = "x"
         if fault == "missing" and included:
             victim = included[case.get("victim", 0) % len(included)]
             del files[victim]
@@ -137,6 +155,15 @@ class C19(object):
         elif fault == "self":
             files["main.asm"] += " INCLUDE main.asm\n"
             fired = "include_cycle"
+        elif fault == "is_directory":
+            files["adir/x.asm"] = " NOP \n"
+            files["main.asm"] += " INCLUDE adir\n"
+            fired = "include_open_error"
+        elif fault == "through_file":
+            files["main.asm"] += " INCLUDE notes.asm/extra.asm\n"
+            fired = "include_open_error"
+        elif fault == "unreadable" and included:
+            fired = "include_open_error"
         elif fault == "sibling_names":
             files["lib/sio.asm"] = " NOP \n INCLUDE sdefs.asm\n"       # names no generated layout uses in the working directory
             files["lib/sdefs.asm"] = " INCLUDE sio.asm\n"
@@ -163,10 +190,13 @@ class C19(object):
             fired = "include_cycle"
         return files, valid, fired
 
-    def invoke(self, files, total_lines):
+    def invoke(self, files, total_lines, unreadable=None):
         w = World()
         for path, text in sorted(files.items()):
             w.put(path, text.encode(), who="SETUP")
+        if unreadable:
+            import errno
+            w.fs.faults[unreadable] = ("read_error", errno.EACCES)
         budget = (process_budget(total_lines) + output_budget(files.values())) * 8 + 2_000_000
         r = w.invoke("assembler", ["main.asm", "--print", "--symbols", "--to_bin", "out.bin"], budget=budget)
         return w, r
@@ -174,8 +204,20 @@ class C19(object):
     def run(self, case):
         res = Result()
         files, valid, fired = self.layout(case)
+        had_decoys = files.pop("\0decoys", None) is not None
         total = sum(t.count("\n") + 1 for t in files.values()) + len(case["lines"])
-        wa, ra = self.invoke(files, total)
+        unreadable = None
+        if case.get("fault") == "unreadable" and fired:
+            inc = sorted(p for p in files if p not in ("main.asm", "empty.asm", "notes.asm"))
+            # only a file that main.asm really reaches counts: take the first INCLUDE line of main.asm
+            for line in files["main.asm"].splitlines():
+                parts = line.split()
+                if "INCLUDE" in parts[:2] and parts[-1] in files:
+                    unreadable = parts[-1]
+                    break
+            if unreadable is None:
+                fired = None
+        wa, ra = self.invoke(files, total, unreadable)
         res.clock += ra.steps
         res.steps += 1
         depth = 0
@@ -200,7 +242,7 @@ class C19(object):
             spliced = "".join(textual_expand(files, "main.asm"))
             if any(c.get("repeat", 1) > 1 for c in valid):
                 res.stats["probe:file_included_twice"] += 1
-            if len(files) > 1 + len(valid):
+            if had_decoys:
                 res.stats["fault:decoy_file_next_to_including_file"] += 1
             wb, rb = self.invoke({"main.asm": spliced}, total + spliced.count("\n"))
             res.clock += rb.steps
